@@ -1,0 +1,147 @@
+//go:build verif
+
+package bank
+
+// Contracts for the deductive checker in /verif (compiled only with -tags verif).
+// C16, query side: the bank precompile reports, for every denomination that has an ERC-20 address, the balances and supplies
+// of the bank module. Lib specs: /verif/specs/c16q/73_bank_query.spec.
+
+import (
+	sdk "github.com/cosmos/cosmos-sdk/types"
+	bankkeeper "github.com/cosmos/cosmos-sdk/x/bank/keeper"
+)
+
+// specAccountCoins / specSupplyCoins stand for the abstract sequences bank_coins_of / bank_supply_coins of the lib spec (their
+// contracts below define them; the bodies are never executed).
+func specAccountCoins(_ bankkeeper.ViewKeeper, _ sdk.Context, _ sdk.AccAddress) []sdk.Coin {
+	panic("specification only")
+}
+
+func specSupplyCoins(_ bankkeeper.Keeper, _ sdk.Context) []sdk.Coin {
+	panic("specification only")
+}
+
+// modelIterateAccountBalances is the assumed behaviour of bankkeeper.ViewKeeper.IterateAccountBalances (cosmos-sdk
+// x/bank/keeper/view.go:115): cb is called on the coins of the account, in store order, until it returns true.
+func modelIterateAccountBalances(k bankkeeper.ViewKeeper, ctx sdk.Context, addr sdk.AccAddress, cb func(sdk.Coin) bool) {
+	for _, coin := range specAccountCoins(k, ctx, addr) {
+		if cb(coin) {
+			break
+		}
+	}
+}
+
+// modelIterateTotalSupply is the assumed behaviour of bankkeeper.Keeper.IterateTotalSupply (x/bank/keeper/keeper.go:526).
+func modelIterateTotalSupply(k bankkeeper.Keeper, ctx sdk.Context, cb func(sdk.Coin) bool) {
+	for _, coin := range specSupplyCoins(k, ctx) {
+		if cb(coin) {
+			break
+		}
+	}
+}
+
+/*@
+alias BalanceT github.com/haqq-network/haqq/precompiles/bank.Balance
+alias BalanceList []github.com/haqq-network/haqq/precompiles/bank.Balance
+specfunc bigis(p *math/big.Int, n int) bool = p != nil && *p == n
+
+func specAccountCoins
+    params k, ctx, addr
+    pure
+    def bank_coins_of(cstate, ctx, addr)
+func specSupplyCoins
+    params k, ctx
+    pure
+    def bank_supply_coins(cstate, ctx)
+
+func ParseBalancesArgs
+    let ok = len(args) == 1 && isdyn(args[0], Address)
+    ensures err_iff: (result.1 == nil) == ok
+    ensures account: result.1 == nil ==> result.0 == addr_bytes(dyn(args[0], Address))
+
+func ParseSupplyOfArgs
+    let ok = len(args) == 1 && isdyn(args[0], Address)
+    ensures err_iff: (result.1 == nil) == ok
+    ensures token: result.1 == nil ==> result.0 == dyn(args[0], Address)
+
+// position in the output of the k-th reported coin: the number of coins among the first k that have an ERC-20 address
+ghost func Listed(s CState, x Ctx, l Coins, k int) int
+    def ite(k <= 0, 0, Listed(s, x, l, k-1) + ite(erc20_coin_addr_ok(s, x, coins_at(l, k-1).Denom), 1, 0))
+
+// the output list o lists exactly the coins of l[0..n) that have an ERC-20 address, each once, in order:
+// the j-th coin with an address sits at position Listed(j) with that address and its amount, and there are Listed(n) entries
+specfunc lists(o BalanceList, s CState, x Ctx, l Coins, n int) bool = len(o) == Listed(s, x, l, n)
+        && (forall j int :: 0 <= j && j < n && erc20_coin_addr_ok(s, x, coins_at(l, j).Denom)
+            ==> 0 <= Listed(s, x, l, j) && Listed(s, x, l, j) < len(o) && o[Listed(s, x, l, j)].ContractAddress == erc20_coin_addr(s, x, coins_at(l, j).Denom) && bigis(o[Listed(s, x, l, j)].Amount, coins_at(l, j).Amount))
+
+// What `lists` means, proved once: positions grow with the index (order preserved), two different reported coins never share
+// a position (each exactly once), and every position of the output belongs to some reported coin (nothing else is listed).
+lemma ListedNonneg(s CState, x Ctx, l Coins, n int)
+    ensures 0 <= Listed(s, x, l, n)
+    induction n above 0
+lemma ListedMono(s CState, x Ctx, l Coins, j int, n int)
+    requires 0 <= j && j <= n
+    ensures Listed(s, x, l, j) <= Listed(s, x, l, n)
+    induction n above j
+lemma ListedStrict(s CState, x Ctx, l Coins, j int, n int)
+    requires 0 <= j && j < n && erc20_coin_addr_ok(s, x, coins_at(l, j).Denom)
+    ensures Listed(s, x, l, j) < Listed(s, x, l, n)
+    use ListedMono(s, x, l, j + 1, n)
+lemma ListedOnto(s CState, x Ctx, l Coins, n int, m int)
+    requires 0 <= n && 0 <= m && m < Listed(s, x, l, n)
+    ensures exists j int :: 0 <= j && j < n && erc20_coin_addr_ok(s, x, coins_at(l, j).Denom) && Listed(s, x, l, j) == m
+    induction n above 0
+
+func (Precompile).Balances
+    params p, ctx, contract, method, input
+    requires wf: method != nil
+    let okargs = len(input) == 1 && isdyn(input[0], Address)
+    let L = bank_coins_of(cstate, ctx, addr_bytes(dyn(input[0], Address)))
+    loop 1 invariant idx: 0 <= #i && #i <= coins_len(L) && i == #i
+    loop 1 invariant lists: lists(balances, cstate, ctx, L, #i)
+    loop 1 invariant fresh: forall j int :: 0 <= j && j < len(balances) ==> fresh(balances[j].Amount)
+    call Pack requires packed: arguments == method.Outputs && len(args) == 1 && isdyn(args[0], BalanceList) && lists(dyn(args[0], BalanceList), cstate, ctx, L, coins_len(L))
+    ensures refused: !okargs ==> result.1 != nil && len(result.0) == 0
+    ensures reported: okargs ==> result.0 == ret(Pack, 1, 0) && result.1 == ret(Pack, 1, 1)
+
+// totalSupply() -> the supply of every denomination that has an ERC-20 address, in the bank module's order
+func (Precompile).TotalSupply
+    params p, ctx, contract, method, input
+    requires wf: method != nil
+    let L = bank_supply_coins(cstate, ctx)
+    loop 1 invariant idx: 0 <= #i && #i <= coins_len(L) && i == #i
+    loop 1 invariant lists: lists(totalSupply, cstate, ctx, L, #i)
+    loop 1 invariant fresh: forall j int :: 0 <= j && j < len(totalSupply) ==> fresh(totalSupply[j].Amount)
+    call Pack requires packed: arguments == method.Outputs && len(args) == 1 && isdyn(args[0], BalanceList) && lists(dyn(args[0], BalanceList), cstate, ctx, L, coins_len(L))
+    ensures reported: result.0 == ret(Pack, 1, 0) && result.1 == ret(Pack, 1, 1)
+
+// supplyOf(erc20Address) -> the bank supply of the denomination of the token pair registered for that contract, 0 when no pair is
+func (Precompile).SupplyOf
+    params p, ctx, contract, method, input
+    requires wf: method != nil
+    let okargs = len(input) == 1 && isdyn(input[0], Address)
+    let tok = dyn(input[0], Address)
+    let id = erc20_pair_id(cstate, ctx, tok)
+    let found = erc20_pair_found(cstate, ctx, id)
+    call GetERC20Map requires named: erc20 == tok
+    call GetSupply requires named: found && denom == erc20_pair(cstate, ctx, id).Denom && k == p.bankKeeper
+    call Pack requires packed: arguments == method.Outputs && len(args) == 1 && isdyn(args[0], *BigInt)
+            && bigis(dyn(args[0], *BigInt), ite(found, bank_supply_of(cstate, ctx, erc20_pair(cstate, ctx, id).Denom), 0))
+    ensures refused: !okargs ==> result.1 != nil && len(result.0) == 0
+    ensures reported: okargs ==> result.0 == ite(found, ret(Pack, 2, 0), ret(Pack, 1, 0)) && result.1 == ite(found, ret(Pack, 2, 1), ret(Pack, 1, 1))
+    // ---- C16: supplyOf agrees with balances / totalSupply on what "the ERC-20 address of a denomination" is. For an arbitrary
+    // denomination d whose address (GetCoinAddress, the address balances() and totalSupply() list it under) is the queried one,
+    // the reported amount is the bank supply of d.
+    ghostvar d string
+    let sup = ite(found, bank_supply_of(cstate, ctx, erc20_pair(cstate, ctx, id).Denom), 0)
+    // store invariant of the erc20 module (RegisterCoin / RegisterERC20 write the pair and both indexes together, x/erc20/keeper
+    // token_pairs.go SetTokenPair/SetDenomMap/SetERC20Map): the pair indexed under a denomination carries that denomination
+    // and its contract is indexed back to the same pair (A-erc20-indexes)
+    requires e20_indexes: forall dd string :: len(erc20_denom_id(cstate, ctx, dd)) != 0 && erc20_pair_found(cstate, ctx, erc20_denom_id(cstate, ctx, dd))
+            ==> erc20_pair(cstate, ctx, erc20_denom_id(cstate, ctx, dd)).Denom == dd
+                && erc20_pair_id(cstate, ctx, hex_addr(erc20_pair(cstate, ctx, erc20_denom_id(cstate, ctx, dd)).Erc20Address)) == erc20_denom_id(cstate, ctx, dd)
+    ensures same_supply_registered: okargs && len(erc20_denom_id(cstate, ctx, d)) != 0 && erc20_coin_addr_ok(cstate, ctx, d) && erc20_coin_addr(cstate, ctx, d) == tok ==> sup == bank_supply_of(cstate, ctx, d)
+    // FINDING K1: fails for an unregistered IBC voucher - balances()/totalSupply() list it under its hash-derived address, supplyOf of
+    // that address finds no token pair and reports 0
+    ensures same_supply: okargs && erc20_coin_addr_ok(cstate, ctx, d) && erc20_coin_addr(cstate, ctx, d) == tok ==> sup == bank_supply_of(cstate, ctx, d)
+@*/
